@@ -89,8 +89,10 @@ type VC struct {
 	calleesWithContract map[string]bool
 	boxed               map[*types.Var]bool
 	callAssertSeen      map[string]bool
-	fmtOf               map[string]string   // Sprintf result term -> its constant format string
-	boxedAddr           map[*types.Var]bool // boxed because the address is taken (or a pointer method is called)
+	ifaceAsserts        []ifaceAssert
+	typeTagT            map[string]types.Type // tag -> Go type
+	fmtOf               map[string]string     // Sprintf result term -> its constant format string
+	boxedAddr           map[*types.Var]bool   // boxed because the address is taken (or a pointer method is called)
 	boxScanned          map[ast.Node]bool
 	inlineStack         []*types.Func
 	assumptions         map[string]bool
@@ -743,6 +745,13 @@ func (vc *VC) litOfTerm(t string) (string, bool) {
 	return "", false
 }
 
+// ifaceAssert: an assertion v.(I) to an interface type: whether it succeeds is decided by the dynamic type; for every
+// concrete type the function mentions the answer is known from its method set (added when the queries are finished).
+type ifaceAssert struct {
+	ok, val string
+	T       types.Type
+}
+
 func (vc *VC) typeTag(T types.Type) string {
 	k := typeKey(T)
 	if n, ok := vc.typeTags[k]; ok {
@@ -750,6 +759,10 @@ func (vc *VC) typeTag(T types.Type) string {
 	}
 	n := len(vc.typeTags) + 1
 	vc.typeTags[k] = n
+	if vc.typeTagT == nil {
+		vc.typeTagT = map[string]types.Type{}
+	}
+	vc.typeTagT[fmt.Sprint(n)] = T
 	return fmt.Sprint(n)
 }
 
